@@ -142,8 +142,10 @@ class C07(Cfg):
         accepted_edges = set()   # placing references that came in through an accepted definition
         for op, out in zip(ops[1:], outs[1:]):
             k, a = kv(op)
-            if out == "bad-op" or out == "panic":
-                fail("malformed", "%s -> %s" % (op, out)); break
+            if out == "bad-op":
+                break      # an op file that is not well-formed (e.g. over-shrunk): nothing to judge from here on
+            if out == "panic":
+                fail("panic", "%s -> the authorisation service panicked" % op); break
             g = lambda x: int(a[x])
             if k == "srow":
                 b = a["body"]
